@@ -895,3 +895,56 @@ majority = Contract(
                  'contracts above (recording hooks here)'],
 )
 UNITS.append(majority)
+
+
+# ------------------------------------------------------------------------------ the tagger's method table: pseudo-read tags of every class
+# the molecule-level tags of a consensus record (sample, UMI, cut site, counts ...: units above) are written by
+# Molecule.write_tags_to_psuedoreads; every molecule class the tagger can select must run it exactly once on the records when
+# its own write_tags_to_psuedoreads is called (twice would be harmless for most tags but not for counters; never is a loss)
+def pseudo_table_units():
+    from contracts import c06
+    units, seen = [], set()
+    for methods, mol, frag in c06.method_table():
+        if mol in seen or mol == 'Molecule':
+            continue
+        seen.add(mol)
+        rel = c06.class_file('molecule', mol)
+        if rel is not None:
+            units.append(pseudo_table_unit(methods, mol, rel))
+    return units
+
+
+def pseudo_table_setup(eng):
+    eng.ghost.clear()
+    eng.ghost['base_calls'] = []
+    eng.spec_env['GHOST'] = eng.ghost
+    Qm = 'singlecellmultiomics.molecule.'
+    eng.loader.call_hooks[Qm + 'molecule.Molecule.write_tags_to_psuedoreads'] = lambda e, f, a, k, n: e.ghost['base_calls'].append(a[-1])
+    eng.loader.call_hooks[Qm + 'molecule.Molecule.get_cut_site'] = lambda e, f, a, k, n: ('chr1', named(INT, 'cut'), named(BOOL, 'cut_strand'))
+    eng.loader.call_hooks[Qm + 'nlaIII.NlaIIIMolecule.get_undigested_site_count'] = lambda e, f, a, k, n: named(INT, 'undigested')
+    eng.loader.call_hooks[Qm + 'taps.TAPSMolecule.add_cpg_color_tag_to_read'] = lambda e, f, a, k, n: None
+    stubs.STUBS['TableRead'] = {'methods': {'set_tag': lambda e, o, t, v, *a, **k: o.attrs['tags'].__setitem__(t, v)}, 'props': {}, 'setters': {}}
+
+
+def pseudo_table_unit(methods, cls, relpath):
+    def mol(eng, name):
+        return Obj(cls, {'reference': None, 'exons': set(), 'introns': set(), 'genes': {'geneA'}, 'junctions': set(), 'is_spliced': None,
+                         'exon_hit_gene_names': set(), 'site_location': ['chr1', named(INT, 'site')], 'strand': named(BOOL, 'strand')},
+                   info=eng.loader.classref(relpath, cls))
+    return Contract(
+        PROP, relpath + '::' + cls, name='%s.write_tags_to_psuedoreads[base tag writer runs once; -method %s]' % (cls, ','.join(methods)),
+        harness='''
+MOL.write_tags_to_psuedoreads(READS)
+return MOL
+''',
+        params={'MOL': mol, 'READS': lambda eng, name: [Obj('TableRead', {'tags': {}}), Obj('TableRead', {'tags': {}})]},
+        setup=pseudo_table_setup,
+        ensures={'the_molecule_level_tag_writer_runs_exactly_once_on_these_records':
+                 'len(GHOST["base_calls"]) == 1 and len(GHOST["base_calls"][0]) == 2 and '
+                 '(GHOST["base_calls"][0][0] is READS[0]) and (GHOST["base_calls"][0][1] is READS[1])'},
+        raises={},
+        assumptions=['Molecule.write_tags_to_psuedoreads itself: units above; class names from the method table of bamtagmultiome.py'],
+    )
+
+
+UNITS += pseudo_table_units()
